@@ -31,9 +31,9 @@ class Runaway(Exception):
 class Paged(Lane):
     name = 'C16.paged_results'
 
-    def __init__(self, ctx, maxpages, maxentries, chained):
-        Lane.__init__(self, ctx, maxpages, maxentries, chained)
-        self.maxpages = maxpages; self.maxentries = maxentries; self.chained = chained
+    def __init__(self, ctx, maxpages, maxentries, chained, sizebits=16):
+        Lane.__init__(self, ctx, maxpages, maxentries, chained, sizebits)
+        self.maxpages = maxpages; self.maxentries = maxentries; self.chained = chained; self.sizebits = sizebits
 
     def inputs(self):
         c = self.c
@@ -45,8 +45,8 @@ class Paged(Lane):
             cookie = [] if last else [z3.BitVec(f'ck{k}_{i}', 8) for i in range(1 + (c.choose(2, f'cklen{k}') if self.maxentries > 1 else 0))]
             other = bool(c.choose(2, f'other{k}'))
             pages.append({'entries': [z3.BitVec(f'e{k}_{i}', 8) for i in range(ne)], 'cookie': cookie, 'other': other, 'rc': z3.BitVec(f'rc{k}', 8)})
-        size = z3.BitVec('psize', 16)          # 1..65535: INTEGER content of one, two and three octets (127/128 and 32767/32768 boundaries)
-        d = {'pages': pages, 'size': z3.ZeroExt(16, size), 'user_ctrl': bool(c.choose(2, 'user_ctrl')), 'user_paged': bool(c.choose(2, 'user_paged')) if npages == 1 else False,
+        size = z3.BitVec('psize', self.sizebits)          # 16 bits: 1..65535, INTEGER content of one, two and three octets (127/128 and 32767/32768 boundaries)
+        d = {'pages': pages, 'size': z3.ZeroExt(32 - self.sizebits, size), 'user_ctrl': bool(c.choose(2, 'user_ctrl')), 'user_paged': bool(c.choose(2, 'user_paged')) if npages == 1 else False,
              'opts': bool(c.choose(2, 'opts')), 'chained': self.chained and bool(c.choose(2, 'chained'))}
         c.assume(size >= 1)
         # early finish while a later page is in flight: read page 1 and the first entry of page 2, then finish()
@@ -297,13 +297,13 @@ class Paged(Lane):
 
 def body(chk):
     quick = chk.tier == 'quick'
-    p = (3, 1, True) if quick else tier_param('C16', (4, 1, True))
+    p = (3, 1, True)
     run_lane(chk, Paged, p, bounds={'pages': f'1..{p[0]}', 'entries per page': f'0..{p[1]} (incl. an empty first page)', 'cookies': ('1' if p[1] <= 1 else '1..2') + ' symbolic byte(s) each, consecutive pages may return the same cookie; empty on the last page',
                                     'page size': '1..65535 symbolic', 'other request controls / search options / other response controls': 'present or absent', 'chaining': 'alone or behind EntriesOnly'},
              selftest=True, need_regions=('pages=1', 'pages=3', 'chained', 'user-paged', 'early-finish'))
     if not quick:
-        p2 = tier_param('C16B', (3, 2, True))
-        run_lane(chk, Paged, p2, bounds={'pages': f'1..{p2[0]}', 'entries per page': f'0..{p2[1]}', 'cookies': '1..2 symbolic bytes each, consecutive pages may return the same cookie; empty on the last page', 'page size': '1..65535 symbolic',
+        for p2 in (tier_param('C16', (4, 1, True, 7)), tier_param('C16B', (3, 2, True, 7))):
+            run_lane(chk, Paged, p2, bounds={'pages': f'1..{p2[0]}', 'entries per page': f'0..{p2[1]}', 'cookies': '1..2 symbolic bytes each, consecutive pages may return the same cookie; empty on the last page', 'page size': '1..127 symbolic',
                                          'other request controls / search options / other response controls': 'present or absent', 'chaining': 'alone or behind EntriesOnly'}, selftest=False, need_regions=('pages=3', 'chained'))
     chk.assumptions += [
         'lane B3 with scripted pages: the adapter chain, SearchStream shims, start_inner, op_call and the paging control codec run from MIR; the request channel records every search request and hands its item channel the next scripted page; the driver\'s acknowledgement of a search start is a stub',
